@@ -95,10 +95,6 @@ Proof.
 Qed.
 
 (* ---------- ranges ---------- *)
-Definition cs_typed_txn (cfg : cs_cfg) (tx : cs_txn) (r : cs_sc_result) : Prop :=
-  Forall (fun t => 0 <= tr_amt t) (cs_queued cfg tx r).
-Definition cs_typed_item (cfg : cs_cfg) (it : cs_item) : Prop :=
-  cs_typed_txn cfg (snd (fst it)) (snd it).
 
 Lemma cs_wf_filter : forall (p : Z * cs_acct -> bool) m, cs_wf m -> cs_wf (filter p m).
 Proof.
